@@ -57,7 +57,7 @@ func (s *service) Create(ctx context.Context, record kvs.Record) (string, error)
 	if ctx.Err() != nil {
 		return "", ctx.Err()
 	}
-	if r, ok := s.recs[record.Key]; ok {
+	if r, ok := s.live(record.Key); ok {
 		return r.Version, errors.ErrExist
 	}
 	record.Version = ulidutils.NewID()
@@ -151,7 +151,7 @@ func (s *service) Delete(ctx context.Context, key string) error {
 	s.lock.Lock()
 	defer s.lock.Unlock()
 
-	if _, ok := s.recs[key]; !ok {
+	if _, ok := s.live(key); !ok {
 		return errors.ErrNotExist
 	}
 	delete(s.recs, key)
@@ -162,7 +162,7 @@ func (s *service) Delete(ctx context.Context, key string) error {
 func (s *service) WaitForVersionChange(ctx context.Context, key, ver string) error {
 	for {
 		s.lock.Lock()
-		r, ok := s.recs[key]
+		r, ok := s.live(key)
 		if !ok {
 			s.lock.Unlock()
 			return errors.ErrNotExist
@@ -179,23 +179,48 @@ func (s *service) WaitForVersionChange(ctx context.Context, key, ver string) err
 		ws.waiters++
 		s.lock.Unlock()
 
+		// the record may expire while waiting, which is the same as its deletion
+		var expired <-chan time.Time
+		var tmr *time.Timer
+		if r.ExpiresAt != nil {
+			tmr = time.NewTimer(time.Until(*r.ExpiresAt))
+			expired = tmr.C
+		}
+
 		select {
 		case <-ctx.Done():
+			if tmr != nil {
+				tmr.Stop()
+			}
 			s.lock.Lock()
 			defer s.lock.Unlock()
-			ws1, ok := s.verChange[key]
-			if !ok || ws.done != ws1.done {
-				return ctx.Err()
-			}
-			ws.waiters--
-			if ws.waiters == 0 {
-				close(ws.done)
-				delete(s.verChange, key)
-			}
+			s.leaveWaiters(key, ws)
 			return ctx.Err()
 		case <-ws.done:
 			// need to check the version, go around
+			if tmr != nil {
+				tmr.Stop()
+			}
+		case <-expired:
+			// need to check the expiration, go around
+			s.lock.Lock()
+			s.leaveWaiters(key, ws)
+			s.lock.Unlock()
 		}
+	}
+}
+
+// leaveWaiters unregisters one waiter from ws, if ws is still the current waiters
+// record for the key. The s.lock must be held.
+func (s *service) leaveWaiters(key string, ws *waiter) {
+	ws1, ok := s.verChange[key]
+	if !ok || ws.done != ws1.done {
+		return
+	}
+	ws.waiters--
+	if ws.waiters == 0 {
+		close(ws.done)
+		delete(s.verChange, key)
 	}
 }
 
@@ -208,12 +233,32 @@ func (s *service) ListKeys(ctx context.Context, pattern string) (iterable.Iterat
 		return nil, fmt.Errorf("could not compile the patter %q: %w", pattern, err)
 	}
 	res := []string{}
-	for k := range s.recs {
+	now := time.Now()
+	for k, r := range s.recs {
+		if r.ExpiresAt != nil && r.ExpiresAt.Before(now) {
+			// the record is expired
+			continue
+		}
 		if g.Match(k) {
 			res = append(res, k)
 		}
 	}
 	return &keysIterator{res: res}, nil
+}
+
+// live returns the record by its key if it exists and is not expired. An expired
+// record is removed as if it was deleted. The s.lock must be held.
+func (s *service) live(key string) (kvs.Record, bool) {
+	r, ok := s.recs[key]
+	if !ok {
+		return kvs.Record{}, false
+	}
+	if r.ExpiresAt != nil && r.ExpiresAt.Before(time.Now()) {
+		delete(s.recs, key)
+		s.notifyWaiters(key)
+		return kvs.Record{}, false
+	}
+	return r, true
 }
 
 func (s *service) notifyWaiters(key string) {
